@@ -61,6 +61,28 @@ pub mod futures {
         pub use crate::shims::write_trait::Write as AsyncWriteExt;
     }
     pub mod stream { pub trait StreamExt { } }
+    pub mod channel { pub mod oneshot {
+        use vstd::prelude::*;
+        /// futures::channel::oneshot.  MODEL: the two ends share an id; `chan_value(id)` is the
+        /// value the receiver will yield (None: the sender was dropped without sending).  ASSUMED:
+        /// `channel()` ids are fresh, so that `send` - which consumes the only sender - may
+        /// reveal that value.
+        #[verifier::external_body]
+        #[verifier::reject_recursive_types(T)]
+        pub struct Sender<T> { t: ::std::marker::PhantomData<T> }
+        #[verifier::external_body]
+        #[verifier::reject_recursive_types(T)]
+        pub struct Receiver<T> { t: ::std::marker::PhantomData<T> }
+        impl<T> View for Sender<T> { type V = int; uninterp spec fn view(&self) -> int; }
+        impl<T> View for Receiver<T> { type V = int; uninterp spec fn view(&self) -> int; }
+        pub uninterp spec fn chan_value<T>(id: int) -> Option<T>;
+        #[verifier::external_body]
+        pub fn channel<T>() -> (r: (Sender<T>, Receiver<T>)) ensures r.0@ == r.1@ { unimplemented!() }
+        impl<T> Sender<T> {
+            #[verifier::external_body]
+            pub fn send(self, t: T) -> (r: Result<(), T>) ensures chan_value::<T>(self@) == Some(t) { unimplemented!() }
+        }
+    } }
     pub mod prelude { }
 }
 
